@@ -237,7 +237,8 @@ def rule_r2(prog, res, ef):
                                 g.qualname, code), where, 'a request syntax '
                                 'error is reported with fault code %r, which '
                                 'is not in the Client family' % (code,))
-    res.floor('R2', 'parsing create_in_document implementations', n, 6)
+    res.floor('R2', 'parsing create_in_document implementations', n,
+              len(PARSING_PROTOCOLS))
 
 
 def rule_r3(prog, res, ef, tier):
@@ -600,7 +601,16 @@ def rule_r7(prog, res):
     res.floor('R7', 'formatted ValidationError messages', n, 4)
 
 
+def rule_r8(prog, res):
+    from . import c13
+    from ..report import Result
+    res.share('R8', 'the request-size refusal is raised inside the fault '
+              'funnel, not eagerly in the transport (C13-R4)', 'C13',
+              c13.rule_r4, prog, Result)
+
+
 def run(prog, res, tier):
+    res.run_rule(rule_r8, prog, res)
     res.run_rule(rule_r7, prog, res)
     cg = CallGraph(prog)
     ef = ExcFlow(prog, cg)
